@@ -290,6 +290,11 @@ func sacramento(rainfall, pet data.ND1Float64,
 			//       Drainage and percolation loop
 			for inc := 1; inc <= ninc; inc++ {
 				ratio := (additionalImperviousStore - uprTensionWater) / lztwm
+				if ratio < 0 {
+					// The ADIMP store can sit below the upper tension store (e.g. after free
+					// water was transferred into tension water): no saturated fraction then
+					ratio = 0
+				}
 				addro := pinc * ratio * ratio
 
 				//         Compute the baseflow from the lower zone
